@@ -1021,6 +1021,134 @@ fn headermap_replay(opts: &Opts, out: &mut Out, ops: &[String]) {
 }
 
 // =================================================================================================
+// locator (node level): the real ActiveChain::{get_ancestor, get_locator}
+// =================================================================================================
+//   nhdr <id> <number> <parent>       -> ok        (header known to the node: stored block or header-map entry)
+//   main <tip id>                     -> ok <chain length>
+//   anc <id> <number> 1               -> <id|none> (ActiveChain::get_ancestor)
+//   loc <id> 1                        -> <ids>     (ActiveChain::get_locator)
+
+fn locator_case(out: &mut Out, rng: &mut Rng, base: &std::path::Path, case_no: usize) {
+    use crate::node::*;
+    let cfg = NodeCfg { epoch_len: 1000, genesis_cells: 1, with_pool: false, ..Default::default() };
+    let consensus = make_consensus(&cfg);
+    let dir = base.join(format!("loc{case_no}"));
+    let node = Node::start(&dir.join("node"), consensus.clone(), &cfg);
+    let mut builder = ChainBuilder::new(consensus.clone(), &dir.join("builder"));
+    let (_tx, rx) = ckb_channel::unbounded();
+    let sync_shared = ckb_sync::SyncShared::new(node.shared.clone(), Default::default(), rx);
+    out.begin_case("locator node");
+    // id -> (hash, number, parent id)
+    let mut hdrs: Vec<(Byte32, u64, u64)> = vec![(consensus.genesis_hash(), 0, 0)];
+    let mut ids: HashMap<Byte32, u64> = HashMap::new();
+    ids.insert(consensus.genesis_hash(), 0);
+    out.op("nhdr 0 0 0", "ok");
+    let mut salt = 0u64;
+    let mut add = |out: &mut Out, hdrs: &mut Vec<(Byte32, u64, u64)>, ids: &mut HashMap<Byte32, u64>, builder: &mut ChainBuilder, parent: u64, stored: bool| -> u64 {
+        salt += 1;
+        let ph = hdrs[parent as usize].0.clone();
+        let blk = builder.build(&ph, &BlockSpec { salt, ..Default::default() });
+        if stored {
+            let r = node.process(&blk);
+            assert_eq!(r, Ok(true), "valid block rejected");
+        } else {
+            sync_shared.insert_valid_header(PeerIndex::new(1), &blk.header());
+        }
+        let id = hdrs.len() as u64;
+        hdrs.push((blk.hash(), blk.number(), parent));
+        ids.insert(blk.hash(), id);
+        out.op(&format!("nhdr {id} {} {parent}", blk.number()), "ok");
+        id
+    };
+    // main chain
+    let m = rng.range(12, 45);
+    let mut tip = 0u64;
+    for _ in 0..m {
+        tip = add(out, &mut hdrs, &mut ids, &mut builder, tip, true);
+    }
+    let main_tip = tip;
+    // stored side branches (shorter than the main chain) and header-only branches (any length)
+    let mut leaves: Vec<u64> = vec![main_tip];
+    for _ in 0..rng.range(2, 5) {
+        let stored = rng.chance(1, 3);
+        let from = if rng.chance(1, 3) { *rng.pick(&leaves) } else { rng.below(hdrs.len() as u64) };
+        let from_n = hdrs[from as usize].1;
+        let max_len = if stored { (m - from_n).saturating_sub(1) } else { 30 };
+        // header-only branches may only grow from headers whose ancestors the node can resolve
+        if max_len == 0 || (stored && !(1..=main_tip).contains(&from) && from != 0) {
+            continue;
+        }
+        let len = rng.range(1, max_len.min(30));
+        let mut cur = from;
+        for _ in 0..len {
+            cur = add(out, &mut hdrs, &mut ids, &mut builder, cur, stored);
+        }
+        leaves.push(cur);
+        out.count(if stored { "locator-stored-branch" } else { "locator-header-branch" });
+    }
+    assert_eq!(node.tip_hash(), hdrs[main_tip as usize].0, "main chain unchanged");
+    out.op(&format!("main {main_tip}"), &format!("ok {}", m + 1));
+    let walk = |mut id: u64, target: u64| -> Option<u64> {
+        if target > hdrs[id as usize].1 {
+            return None;
+        }
+        while hdrs[id as usize].1 > target {
+            id = hdrs[id as usize].2;
+        }
+        Some(id)
+    };
+    let chain = sync_shared.active_chain();
+    for q in 0..40 {
+        let id = if q < leaves.len() { leaves[q] } else { rng.below(hdrs.len() as u64) };
+        let n = hdrs[id as usize].1;
+        if q % 3 == 0 {
+            let loc = chain.get_locator(BlockNumberAndHash::new(n, hdrs[id as usize].0.clone()));
+            let got: Vec<u64> = loc.iter().map(|x| ids.get(x).copied().unwrap_or(u64::MAX)).collect();
+            // oracle: strictly descending numbers, every entry an ancestor of the start by parent walk, ends in genesis
+            let mut prev = u64::MAX;
+            for e in &got {
+                let ok = *e != u64::MAX && walk(id, hdrs[*e as usize].1) == Some(*e) && (prev == u64::MAX || hdrs[*e as usize].1 < prev);
+                if !ok {
+                    out.oracle_fail("locator-not-parent-walk", &format!("loc {id}: {got:?}"));
+                    break;
+                }
+                prev = hdrs[*e as usize].1;
+            }
+            if got.first() != Some(&id) || got.last() != Some(&0) {
+                out.oracle_fail("locator-ends", &format!("loc {id}: {got:?}"));
+            }
+            out.op(&format!("loc {id} 1"), &show(got));
+            out.count("locator-loc");
+        } else {
+            let target = if rng.chance(1, 6) { n + 1 + rng.below(2) } else { rng.below(n + 1) };
+            let got = chain.get_ancestor(&hdrs[id as usize].0, target).map(|v| ids.get(&v.hash()).copied().unwrap_or(u64::MAX));
+            if got != walk(id, target) {
+                out.oracle_fail("ancestor-not-parent-walk", &format!("anc {id} {target}: got {got:?} walk {:?}", walk(id, target)));
+            }
+            out.op(&format!("anc {id} {target} 1"), &got.map(|x| x.to_string()).unwrap_or("none".into()));
+            out.count("locator-anc");
+        }
+    }
+    out.nontrivial(format!("locator m={m} headers={} leaves={leaves:?}", hdrs.len()));
+    drop(chain);
+    drop(sync_shared);
+    node.stop();
+    drop(builder);
+    let _ = std::fs::remove_dir_all(&dir);
+}
+
+fn run_locator(opts: &Opts, out: &mut Out) -> &'static str {
+    let mut rng = Rng::new(opts.seed);
+    let base = crate::node::scratch_dir(&opts.out, "c17loc");
+    let cases = if opts.thorough() { 40 } else { 5 } * opts.scale as usize;
+    for i in 0..cases {
+        locator_case(out, &mut rng, &base, i);
+    }
+    let _ = std::fs::remove_dir_all(&base);
+    "locator: every case (a real main chain of 12..45 blocks plus stored and header-only branches; distinct by shape)"
+}
+
+// =================================================================================================
 
 pub fn run(opts: &Opts) {
     let mode = opts.extra.first().map(|s| s.as_str()).unwrap_or("");
@@ -1035,6 +1163,7 @@ pub fn run(opts: &Opts) {
                 "skip" => skip_replay(&mut out, &ops),
                 "inflight" => inflight_replay(&mut out, &ops),
                 "headermap" => headermap_replay(opts, &mut out, &ops),
+                "locator" => {}
                 _ => panic!("C17: unknown sub-mode {mode}"),
             }
         }
@@ -1046,6 +1175,7 @@ pub fn run(opts: &Opts) {
         "skip" => run_skip(opts, &mut out),
         "inflight" => run_inflight(opts, &mut out),
         "headermap" => run_headermap(opts, &mut out),
+        "locator" => run_locator(opts, &mut out),
         _ => {
             eprintln!("C17: sub-mode orphan|skip|inflight|headermap expected");
             std::process::exit(2);
